@@ -281,7 +281,7 @@ def _sh_uid_alignment(cx, g, field):
     def is_fmt(x):
         return (x[0] == "fmt" and len(x[1]) == 3 and x[1][1] == ("const", "-")
                 and T.attr_chain(x[1][0]) == "%s.parent.uid" % cx.selfname and T.attr_chain(x[1][2]) == "%s.id" % cx.selfname)
-    sides = [list(s_[1]) if s_[0] == "phi" else [s_] for s_ in t[2]]
+    sides = [T.alts(s_) for s_ in t[2]]
     fside = [s_ for s_ in sides if any(is_fmt(a) for a in s_)]
     oside = [s_ for s_ in sides if not any(is_fmt(a) for a in s_)]
     if len(fside) != 1 or len(oside) != 1:
@@ -294,8 +294,18 @@ def _sh_uid_alignment(cx, g, field):
     # several alternatives: the untransformed uid must be the one chosen under the same condition as the formula
     fmt_binds = [e for e in cx.events if e.kind == "bind" and is_fmt(e.value)]
     own_binds = [e for e in cx.events if e.kind == "bind" and e.value == own]
-    return bool(fmt_binds) and bool(own_binds) and any(
-        facts.canon_guards(a.guards) == facts.canon_guards(b.guards) for a in fmt_binds for b in own_binds)
+    if fmt_binds and own_binds and any(facts.canon_guards(a.guards) == facts.canon_guards(b.guards) for a in fmt_binds for b in own_binds):
+        return True
+    # one assignment of a value chosen by a condition (conditional expression, merged if/else): the formula for a child, the own
+    # uid otherwise
+    has_parent = ("cmp", ("is",), (("attr", S, "parent"), ("const", None)))
+    for e in cx.events:
+        if e.kind == "bind" and e.raw is not None and e.raw[0] in ("gate", "ifexp"):
+            child = T.degate(facts.Scenario(cx, atoms={has_parent: False}).term(e.raw))
+            top = T.degate(facts.Scenario(cx, atoms={has_parent: True}).term(e.raw))
+            if is_fmt(child) and top == own:
+                return True
+    return False
 
 
 def _sh_dash_in_id(cx, g, field):
